@@ -449,6 +449,9 @@ class C18Monitor(Monitor):
         if kind == "round_begin":
             nl = len(tree.levels)
             self.round = {"P": {d.id for l, d in tree.all_demes if d.is_active and l < nl - 1}, "S": None}
+            import random as _random
+
+            self.rng_at_round_begin = (np.random.get_state(), _random.getstate())
         elif kind == "round_end":
             self.round["S"] = {d.id for d, c in info["seeds"].items() if c.individuals}
             self.not_woken = set()
@@ -462,6 +465,9 @@ class C18Monitor(Monitor):
 
                 st = (np.random.get_state(), _random.getstate())
                 try:
+                    # (same generator states as the real round started from: comparisons among NaN-fitness individuals draw from `random`)
+                    np.random.set_state(self.rng_at_round_begin[0])
+                    _random.setstate(self.rng_at_round_begin[1])
                     fs = make_sprout(spec, x.w, x.w.box).get_seeds(tree)
                     self.not_woken = {p.id for p, c in fs.items() if c.individuals and hib_flag(p) is True and p.id not in self.round["S"]}
                     x.flag("round replayed with a fresh mechanism")
